@@ -42,7 +42,7 @@ Print Assumptions C14_glue_views_getters.
    pooled buffer, is read back by SEND's independent reference decoder as: Ethernet destination = the
    loop's (hunted) MAC, Ethernet source = our MAC, IPv6 source = target = the learned router's
    address, flag octet = override only, exactly one target link-layer address option = our MAC, valid
-   ICMPv6 checksum, hop limit 255 towards a link-local destination. *)
+   ICMPv6 checksum, hop limit 255. *)
 Theorem C14_glue_send_wire : forall c st i lp ip rest junk,
   nth_error (loops st) i = Some lp -> l_pending lp = ip :: rest ->
   PV.Proofs.SendBase.mac_ok (host_mac c) -> PV.Proofs.SendBase.mac_ok (a_mac (l_dst lp)) ->
@@ -59,7 +59,7 @@ Theorem C14_glue_send_fields : forall n fr, on_wire n fr = true ->
   | Some (PV.Spec.SendRef.mkFrame d s et (PV.Spec.SendRef.L3Ip6 _ nh hop a b (PV.Spec.SendRef.L4Icmp typ code rest))) =>
       d = na_eth_dst n /\ s = na_eth_src n /\ a = na_ip_src n /\ b = na_ip_dst n /\
       typ = 136 /\ nth 0 rest 0 = na_flags n /\ PV.Base.Prelude.sub rest 4 16 = na_target n /\
-      (PV.Spec.SendRef.ip6_is_linklocal (na_ip_dst n) = true -> hop = 255)
+      hop = 255
   | _ => False
   end.
 Proof. exact on_wire_fields. Qed.
